@@ -1308,6 +1308,18 @@ impl<'a> Gen<'a> {
             let t = self.gen_tx(names[i % 3]);
             self.prog.txs.push(t);
         }
+        if self.collide && self.r.chance(1, 5) {
+            // one name for two kinds of top-level definition: an asset or a policy named like an
+            // environment value or a party (they share one scope, the later definition would hide the earlier)
+            let mut pool: Vec<String> = self.prog.parties.clone();
+            pool.extend(self.prog.env.iter().map(|e| e.0.clone()));
+            let name = self.r.pick(&pool).clone();
+            if self.r.chance(1, 2) {
+                self.prog.policies.push((name, policy_hash(5)));
+            } else {
+                self.prog.assets.push((name, X::Hex(policy_hash(6)), X::Str("DUP".into())));
+            }
+        }
         if self.collide && n_txs >= 2 && self.r.chance(1, 2) {
             // two transactions under one name, or under names that differ in letter case only
             // (the interface and the IR are looked up by the exact name)
